@@ -19,3 +19,30 @@ good_update (struct wrap *w)
 		w->leftover = 0;
 	}
 }
+
+extern int unpar (unsigned char c);
+
+int
+dup_operand (const unsigned char *cur, const unsigned char *ref)
+{
+	int err = 0;
+
+	err |= unpar (*ref) | unpar (*ref);	/* same operand twice: *cur is never tested */
+	return err;
+}
+
+struct look { unsigned int skip, lookahead; };
+
+void
+copy_after_reset (struct look *w)
+{
+	w->lookahead = 48;
+	w->skip = w->lookahead;			/* copies the constant just stored, not the old value */
+}
+
+void
+copy_before_reset (struct look *w)
+{
+	w->skip = w->lookahead;
+	w->lookahead = 48;
+}
